@@ -125,7 +125,7 @@ func runThorough(e *Engine, r *Report, id, repo, verif string, noSelf bool, extr
 	}
 	self, _ := os.Executable()
 	results := make([]selfResult, len(jobs))
-	sem := make(chan struct{}, 6)
+	sem := make(chan struct{}, 4) // each sub-check loads the whole program (about 3 GB); keep a thorough run of one property under 12 GB
 	var wg sync.WaitGroup
 	for i, j := range jobs {
 		wg.Add(1)
